@@ -35,13 +35,13 @@ RULE = ('objects: pardim 1-3 x dim 2-3, rational (positive weights) or not, open
         'short/long vectors, no args), rotate (rational half-angle cos/sin incl. 0 and > pi, axes = +-coordinate axes and '
         'Pythagorean directions in all octants, default normal, 2-D objects out of plane), mirror (unit and non-unit normals; '
         '2-D => RuntimeError), project (all planes/axes), set_dimension up/down, force_rational, operator forms in-place, infix '
-        'and reflected with python and numpy operands.  non-trivial = at least one op succeeded and changed the control points.')
+        'and reflected with python and numpy operands; a seventh of the objects carry integer-dtype control-point arrays.  non-trivial = at least one op succeeded and changed the control points.')
 REQUIRED_TAGS = ['op=translate', 'op=scale', 'op=rotate', 'op=mirror', 'op=project', 'op=set_dimension', 'op=force_rational',
                  'op=iadd', 'op=isub', 'op=imul', 'op=itruediv', 'op=add', 'op=radd', 'op=sub', 'op=mul', 'op=rmul', 'op=div',
                  'pardim=1', 'pardim=2', 'pardim=3', 'dim=2', 'dim=3', 'rational', 'periodic-dir',
                  'translate-promote', 'translate-promote-rational', 'scale-per-axis-rational', 'rotate-2d', 'rotate-3d',
                  'rotate-out-of-plane', 'rotate-neg-z-2d', 'mirror-3d', 'mirror-rational', 'err:RuntimeError', 'err:IndexError',
-                 'numpy-left-operand', 'set_dimension-down-rational', 'seq>=3']
+                 'numpy-left-operand', 'set_dimension-down-rational', 'seq>=3', 'int-dtype']
 
 TRANSLATE_OPS = ('translate', 'iadd', 'isub', 'add', 'radd', 'sub')
 SCALE_OPS = ('imul', 'itruediv', 'mul', 'rmul', 'div')
@@ -218,6 +218,18 @@ def generate(rng, tier):
     ]
     for o, ops in fixed:
         specs.append({'obj': o, 'ops': ops, 'params': _params(rng, o, 3)})
+    # integer control-point arrays (dtype int64) moved by non-integer amounts
+    i2, i2r, i3r = _int_object(o2), _int_object(o2r), _int_object(o3r)
+    for o, ops in [
+        (i2, [{'op': 'translate', 'x': [0.5, 0.25], 'as': 'list'}]),
+        (i2, [{'op': 'scale', 'args': [1.5], 'as': 'list'}]),
+        (i2, [{'op': 'itruediv', 'a': 4.0, 'as': 'float'}, {'op': 'isub', 'x': [0.5, 0.25], 'as': 'tuple'}]),
+        (i2, [{'op': 'translate', 'x': [0.5, 0.5, 0.5], 'as': 'ndarray'}]),
+        (i2r, [{'op': 'add', 'x': [0.25, 0.75], 'as': 'list'}, {'op': 'mul', 'a': 0.5, 'as': 'float'}]),
+        (i3r, [{'op': 'div', 'a': [2.0, 4.0, 8.0], 'as': 'ndarray'}, {'op': 'imul', 'a': [0.5, 1.5, 2.5], 'as': 'list'}]),
+        (i3r, [{'op': 'project', 'plane': 'xy'}, {'op': 'set_dimension', 'n': 2}, {'op': 'force_rational'}, {'op': 'iadd', 'x': [0.5, 0.5], 'as': 'list'}]),
+    ]:
+        specs.append({'obj': o, 'ops': ops, 'params': _params(rng, o, 3), 'int_cps': True})
     nobj = 130 if tier == 'quick' else 1300
     for oi in range(nobj):
         pardim = [1, 2, 3, 1, 2, 1][oi % 6]
@@ -226,6 +238,9 @@ def generate(rng, tier):
         o = gen.rand_object(rng, pardim=pardim, dim=dim, rational=rational, pmax=4 if pardim < 3 else 3,
                             max_interior=2 if pardim < 3 else 1, periodic_prob=0.3)
         npar = {1: 4, 2: 3, 3: 2}[pardim]
+        int_cps = (oi % 7 == 3)
+        if int_cps:
+            o = _int_object(o)
         for si in range(6):
             if si < 2:
                 fams = list(rng.choice(_FOCUS))
@@ -244,7 +259,10 @@ def generate(rng, tier):
                             ops.append({'op': 'force_rational'})
                     break            # nothing follows an op whose outcome the property does not define
                 d = want[0]
-            specs.append({'obj': o, 'ops': ops, 'params': _params(rng, o, npar)})
+            spec = {'obj': o, 'ops': ops, 'params': _params(rng, o, npar)}
+            if int_cps:
+                spec['int_cps'] = True
+            specs.append(spec)
     return specs
 
 
@@ -343,12 +361,33 @@ def _apply(o, op):
     raise AssertionError(k)
 
 
+def _mk(sp, s):
+    """The real object of a spec.  `int_cps`: the control points are integers and are handed to the
+    constructor as an integer array (numpy keeps dtype int64, as for `Curve(basis, [[0, 0], [1, 2]])`)."""
+    if not s.get('int_cps'):
+        return gen.mk_object(sp, s['obj'])
+    o = s['obj']
+    bases = [gen.mk_basis(sp, b) for b in o['bases']]
+    cps = np.array(o['cps'], dtype=float)
+    icps = cps.astype(np.int64)
+    assert np.array_equal(icps, cps)
+    cls = {1: sp.Curve, 2: sp.Surface, 3: sp.Volume}[len(bases)]
+    return cls(*bases, icps, o['rational'], raw=True)
+
+
+def _int_object(o):
+    """Same object with every control point (and weight) scaled to an integer (dyadic quarter steps x 4)."""
+    cps = np.array(o['cps'], dtype=float) * 4.0
+    assert np.array_equal(cps, np.round(cps))
+    return {'bases': o['bases'], 'cps': cps.tolist(), 'rational': o['rational']}
+
+
 def _is_obj(sp, x):
     return isinstance(x, sp.SplineObject)
 
 
 def run_impl(sp, s):
-    o = gen.mk_object(sp, s['obj'])
+    o = _mk(sp, s)
     out = []
     with np.errstate(all='ignore'):
         for op in s['ops']:
@@ -482,7 +521,7 @@ def _same_bases(a, b):
 
 
 def oracle(sp, s):
-    o = gen.mk_object(sp, s['obj'])
+    o = _mk(sp, s)
     params = s['params']
     fails = []
     with np.errstate(all='ignore'):
@@ -589,9 +628,8 @@ def _walk(s):
 
 
 def _defect(op, dim):
+    """Known-finding class an op belongs to (still open in the pinned code)."""
     k = op['op']
-    if k == 'div':
-        return 'infix-truediv-undefined'
     if k in ('radd', 'rmul') and op['as'] in ('ndarray', 'npfloat'):
         return 'numpy-left-operand-returns-ndarray'
     if k == 'rotate' and dim == 2 and op['normal'] is not None and op['normal'][0] == 0 and op['normal'][1] == 0 \
@@ -600,20 +638,28 @@ def _defect(op, dim):
     return None
 
 
+def _regression(op, msg):
+    """Label of a repaired class when its symptom is seen again (not suppressed by known_findings)."""
+    if op['op'] == 'div' and ('TypeError' in msg or 'not a spline object' in msg or 'broadcast' in msg):
+        return 'infix-truediv-undefined'
+    return None
+
+
 def classify(s, res=None):
     """Label of the known-defect class of the FIRST failing step (the oracle stops there)."""
     step = None
+    msg = ''
     if res is not None and res.get('oracle'):
-        m = res['oracle'][0]
-        if m.startswith('step '):
-            step = int(m.split(' ')[1])
+        msg = res['oracle'][0]
+        if msg.startswith('step '):
+            step = int(msg.split(' ')[1])
     for i, op, dim, rat in _walk(s):
         d = _defect(op, dim)
         if step is None:
             if d:
                 return d
         elif i == step:
-            return d
+            return d or _regression(op, msg)
     return None
 
 
@@ -627,6 +673,8 @@ def tags(s, res):
         out.add('periodic-dir')
     if len(s['ops']) >= 3:
         out.add('seq>=3')
+    if s.get('int_cps'):
+        out.add('int-dtype')
     first = True
     for i, op, dim, rat in _walk(s):
         if first:
